@@ -269,6 +269,18 @@ func c02(c *core.Ctx, r *core.Report) {
 			sender = fn
 			loop, head := an.NaturalLoopOf(call.Block())
 			if loop == nil {
+				// a recorder of several drops (C01.R1 `#bulk`: one record per unit of its count) called once with the
+				// Swap result as the count
+				if cnt, _ := bulkDropRecorder(c, an.Callee(call)); cnt != nil && an.ParamIndex(cnt) < len(call.Common().Args) {
+					arg := stripAllocs(call.Common().Args[an.ParamIndex(cnt)])
+					if isSwapResult(pf, arg, 3) {
+						boundIsLocalSwap[fn] = true
+						r.OK(key, an.Pos(c, call), "the Swap result %s is handed to a recorder of that many drops", an.D().Of(arg))
+					} else {
+						r.Violation(key, an.Pos(c, call), "%s is asked to report %s drops, which is not the value the Swap returned", core.FuncName(an.Callee(call)), an.D().Of(arg))
+					}
+					continue
+				}
 				r.Violation(key, an.Pos(c, call), "drop report is not in a loop bounded by the Swap result")
 				continue
 			}
